@@ -1,7 +1,7 @@
 --------------------------- MODULE ParallelMap_Trace ---------------------------
 (* Validates event logs of the real parallel_map (recorded by /verif/rust_harness: function starts and        *)
 (* finishes, values returned by next(), drop, join) against ParallelMap.tla.                               *)
-EXTENDS ParallelMap, Json, IOUtils, TLCExt
+EXTENDS ParallelMap, Json, IOUtils, TLC, TLCExt
 VARIABLES tid, l
 tvars == <<vars, tid, l>>
 TraceLogs == JsonDeserialize(IOEnv.TRACE_FILE)
